@@ -14,9 +14,15 @@ import (
 // an always-valid body that references pool paths: var _ = []interface{}{ q.Q0z, ... } and a func
 func importBody(r *Rng, pool *PathPool, nrefs int) []*Stmt {
 	var refs []Arg
+	var used []int
 	for i := 0; i < nrefs; i++ {
 		k := r.Intn(len(pool.Paths))
+		used = append(used, k)
 		refs = append(refs, st(Qual{Path: pool.Paths[k], Name: qName(k)}))
+	}
+	if len(used) == 0 {
+		used = []int{0}
+		refs = append(refs, st(Qual{Path: pool.Paths[0], Name: qName(0)}))
 	}
 	body := []*Stmt{st(kw("Var"), id("_"), op("="), &Grp{Api: "Index"}, kw("Any"), &Grp{Api: "Values", Args: refs})}
 	if r.Bool() {
@@ -41,6 +47,38 @@ func importBody(r *Rng, pool *PathPool, nrefs int) []*Stmt {
 		q := st(Qual{Path: pool.Paths[k], Name: qName(k)})
 		body = append(body, st(kw("Var"), id("_"), op("="), &Grp{Api: "Map", Args: []Arg{st(kw("Any"))}}, kw("Any"), &Grp{Api: "Values", Args: []Arg{
 			&Dict{Pairs: [][2]Arg{{q, st(kw("Null"))}}}}}))
+	}
+	if r.Chance(40) {
+		// Dict pairs in every combination of key/value kinds (plain, reference, null, Empty), with
+		// and without sibling pairs that do render
+		// a reference in a pair that IS rendered only names a path already registered by the first
+		// statement (otherwise the order-dependent naming of known finding D7 comes into play); a
+		// reference in an omitted pair may name any path
+		mk := func(kind int, free bool) Arg {
+			k := used[r.Intn(len(used))]
+			if free {
+				k = r.Intn(len(pool.Paths))
+			}
+			switch kind {
+			case 0:
+				return st(mkLit(r.Intn(9)))
+			case 1:
+				return st(Qual{Path: pool.Paths[k], Name: qName(k)})
+			case 2:
+				return st(kw("Null"))
+			case 3:
+				return st()
+			default:
+				return st(id("v"), &Grp{Api: "Call", Args: []Arg{st(Qual{Path: pool.Paths[k], Name: qName(k)})}})
+			}
+		}
+		d := &Dict{}
+		for j := 0; j < 1+r.Intn(4); j++ {
+			kk, vk := r.Intn(5), r.Intn(5)
+			omitted := kk == 2 || kk == 3 || vk == 2 || vk == 3
+			d.Pairs = append(d.Pairs, [2]Arg{mk(kk, omitted), mk(vk, omitted)})
+		}
+		body = append(body, st(kw("Var"), id("_"), op("="), &Grp{Api: "Map", Args: []Arg{st(kw("Any"))}}, kw("Any"), &Grp{Api: "Values", Args: []Arg{d}}))
 	}
 	if r.Chance(15) {
 		// a reference inside an all-null type-parameter list and inside a null group
@@ -78,7 +116,15 @@ func sanePool(r *Rng, n int) *PathPool {
 
 // collidingPool: many paths competing for one base name
 func collidingPool(r *Rng, n int) *PathPool {
-	base := pick(r, []string{"d", "rand", "type", "any", "x", "v2", "123", "pkg", "len"})
+	// bases include leading parts of predeclared identifiers that end in digits: numbering them
+	// (int3 -> int31, int32) must skip the reserved word
+	base := pick(r, []string{"d", "rand", "type", "any", "x", "v2", "123", "pkg", "len",
+		"int", "int1", "int3", "int6", "uint", "uint1", "uint3", "uint6", "float3", "float6", "complex6", "complex12"})
+	if strings.HasPrefix(base, "int") || strings.HasPrefix(base, "uint") || strings.HasPrefix(base, "float") || strings.HasPrefix(base, "complex") {
+		if n < 9 {
+			n = 9
+		}
+	}
 	p := &PathPool{}
 	for i := 0; i < n; i++ {
 		p.Paths = append(p.Paths, fmt.Sprintf("h%d.com/%s", i, base))
@@ -111,9 +157,15 @@ func genImportHistory(cx *CheckCtx, i int, cfg FileCfg) *Case {
 	if r.Chance(70) {
 		c.Ops = append(c.Ops, Op{Kind: OpAnon, F: 0, Str: []string{pick(r, pool.Paths)}})
 	}
+	if r.Chance(35) {
+		pool.Paths = append(pool.Paths, "C")
+	}
 	reg := 0
 	rounds := 2 + r.Intn(3)
 	for k := 0; k < rounds; k++ {
+		if k > 0 && r.Chance(25) {
+			c.Ops = append(c.Ops, Op{Kind: OpCgo, F: 0, Str: []string{"#include <x.h>"}})
+		}
 		sub := &PathPool{Paths: pool.Paths}
 		nrefs := r.Intn(3)
 		var refs []Arg
@@ -128,6 +180,40 @@ func genImportHistory(cx *CheckCtx, i int, cfg FileCfg) *Case {
 		c.Ops = append(c.Ops, Op{Kind: OpRender, F: 0})
 	}
 	return dropInsane(c)
+}
+
+// genCgoHistory: "C" referenced (or Anon'd) and rendered, then a preamble and/or new imports are
+// added between further renders
+func genCgoHistory(cx *CheckCtx, i int) *Case {
+	r := cx.R.Fork()
+	pool := &PathPool{Paths: []string{"C", "os", "fmt", "a.com/d", "b.com/d", "9fans.net/go/acme", "strings"}}
+	c := &Case{ID: fmt.Sprintf("%s-cgohist-%d-%d", cx.Prop, cx.Seed, i)}
+	c.Ops = append(c.Ops, Op{Kind: OpFile, F: 0, Str: []string{"new", "", "p"}})
+	if r.Chance(25) {
+		c.Ops = append(c.Ops, Op{Kind: OpSet, F: 0, Str: []string{"prefix", "pkg"}})
+	}
+	ref := func(k int) Op {
+		return Op{Kind: OpFAdd, F: 0, Args: []Arg{st(kw("Var"), id("_"), op("="), Qual{Path: pool.Paths[k], Name: qName(k)})}}
+	}
+	if r.Chance(70) {
+		c.Ops = append(c.Ops, ref(0))
+	} else {
+		c.Ops = append(c.Ops, Op{Kind: OpAnon, F: 0, Str: []string{"C"}})
+	}
+	for k := 0; k < r.Intn(3); k++ {
+		c.Ops = append(c.Ops, ref(1+r.Intn(len(pool.Paths)-1)))
+	}
+	c.Ops = append(c.Ops, Op{Kind: OpRender, F: 0})
+	for round := 0; round < 1+r.Intn(3); round++ {
+		if r.Chance(60) {
+			c.Ops = append(c.Ops, Op{Kind: OpCgo, F: 0, Str: []string{pick(r, []string{"#include <x.h>", "#cgo LDFLAGS: -lm"})}})
+		}
+		for k := 0; k < r.Intn(3); k++ {
+			c.Ops = append(c.Ops, ref(1+r.Intn(len(pool.Paths)-1)))
+		}
+		c.Ops = append(c.Ops, Op{Kind: OpRender, F: 0})
+	}
+	return c
 }
 
 func genImportCase(cx *CheckCtx, i int, cfg FileCfg, sane bool) *Case {
@@ -469,8 +555,10 @@ func registerImportChecks() {
 		// near misses of the local path
 		for i := 0; i < cx.N(500, 10000); i++ {
 			r := cx.R.Fork()
-			local := pick(r, []string{"a.com/x", "github.com/u/pkg", "x", "a.com/x/y"})
-			near := []string{local, local + "/", local + "x", "b/" + local, strings.ToUpper(local), strings.TrimSuffix(local, "x"), local + "/x", "a.com", local[1:]}
+			local := pick(r, []string{"a.com/x", "github.com/u/pkg", "x", "a.com/x/y", "example.com/foo/v2", "a.com/x/v3", "gopkg.in/yaml.v2"})
+			near := []string{local, local + "/", local + "x", "b/" + local, strings.ToUpper(local), strings.TrimSuffix(local, "x"), local + "/x", "a.com", local[1:],
+				local + "/v2", local + "/v3", strings.TrimSuffix(strings.TrimSuffix(local, "/v2"), "/v3"), strings.TrimSuffix(local, ".v2"), local + ".v2",
+				strings.Replace(local, "/v2", "/v3", 1), local + "/internal", "vendor/" + local, strings.ToLower(local) + "_test"}
 			pool := &PathPool{}
 			seen := map[string]bool{}
 			for _, p := range near {
@@ -506,7 +594,8 @@ func registerImportChecks() {
 	mk("C19", true, func(cx *CheckCtx) []*Case {
 		var cs []*Case
 		preambles := [][]string{nil, {"#include <a.h>"}, {"#include <a.h>\n#include <b.h>"}, {"// #include <raw.h>"}, {"#include <a.h>", "/* second */", "int x;"}}
-		others := [][]string{nil, {"fmt"}, {"a.com/d", "b.com/d", "os"}, {"x.com/c"}, {"a.com/C"}}
+		others := [][]string{nil, {"fmt"}, {"a.com/d", "b.com/d", "os"}, {"x.com/c"}, {"a.com/C"},
+			{"9fans.net/go/acme", "fmt"}, {"Azure.com/sdk", "B.io/x"}, {"-x.org/y"}}
 		n := 0
 		for qualC := 0; qualC < 2; qualC++ {
 			for anonC := 0; anonC < 2; anonC++ {
@@ -562,6 +651,9 @@ func registerImportChecks() {
 					}
 				}
 			}
+		}
+		for i := 0; i < cx.N(400, 10000); i++ {
+			cs = append(cs, genCgoHistory(cx, i))
 		}
 		return cs
 	})
